@@ -15,6 +15,7 @@ import (
 	"encoding/hex"
 	"fmt"
 	"io"
+	"math/big"
 	"time"
 )
 
@@ -117,6 +118,7 @@ func UnknownExt(n int, critical bool) Ext {
 // Entry is one revokedCertificates element.
 type Entry struct {
 	SerialHex string `json:"s"`           // big-endian magnitude in hex
+	Neg       bool   `json:"neg,omitempty"` // encode the serial as the NEGATIVE number -magnitude (a broken CA; legal for the decoder)
 	Date      int64  `json:"d"`           // unix seconds
 	GenTime   bool   `json:"g,omitempty"` // encode as GeneralizedTime
 	Exts      []Ext  `json:"x,omitempty"`
@@ -128,7 +130,11 @@ func (e Entry) DER() []byte {
 	if err != nil {
 		panic("bad serial hex " + e.SerialHex)
 	}
-	parts := [][]byte{DERIntFromMagnitude(mag), DERTime(time.Unix(e.Date, 0), e.GenTime)}
+	serial := DERIntFromMagnitude(mag)
+	if e.Neg {
+		serial = DERBigInt(new(big.Int).Neg(new(big.Int).SetBytes(mag)))
+	}
+	parts := [][]byte{serial, DERTime(time.Unix(e.Date, 0), e.GenTime)}
 	if len(e.Exts) > 0 {
 		var xs [][]byte
 		for _, x := range e.Exts {
